@@ -13,6 +13,7 @@ type Op struct {
 	Kind string `json:"op"` // send | cancel | closerecv | pause | resume | await
 	Msg  *Msg   `json:"msg,omitempty"`
 	N    int    `json:"n,omitempty"` // await: block until N replies (see Client.IsReply) have been received
+	Key  string `json:"key,omitempty"` // awaitkey: block until N messages with this key (see Client.KeyOf) have been received
 }
 
 // Got is one message taken from the send channel.
@@ -43,6 +44,12 @@ type Client struct {
 	Got    []Got
 	// IsReply decides which received messages count for `await` (default: all).
 	IsReply func(mocrelay.ServerMsg) bool
+	// KeyOf classifies received messages for `awaitkey`.
+	KeyOf  func(mocrelay.ServerMsg) string
+	keyCnt map[string]int
+	// OnSend, if set, is called by the writer actor right before script op i
+	// (a send) is attempted.
+	OnSend func(i int)
 	replies int
 
 	dyn     chan Op // ops injected by the driver after the static script (see Do)
@@ -109,7 +116,13 @@ func (c *Client) reader() {
 			if c.IsReply == nil || c.IsReply(m) {
 				c.replies++
 			}
-			if w := c.waiting.Load(); w > 0 && int64(c.replies) >= w {
+			if c.KeyOf != nil {
+				if c.keyCnt == nil {
+					c.keyCnt = map[string]int{}
+				}
+				c.keyCnt[c.KeyOf(m)]++
+			}
+			if w := c.waiting.Load(); w != 0 {
 				select {
 				case c.gotCh <- struct{}{}:
 				default:
@@ -157,6 +170,9 @@ func (c *Client) exec(i int, op Op) (goOn bool) {
 			return true
 		}
 		m := op.Msg.Client()
+		if c.OnSend != nil {
+			c.OnSend(i)
+		}
 		s := &Sent{Idx: i, Msg: m, Invoke: c.Sim.Stamp()}
 		c.Sent = append(c.Sent, s)
 		select {
@@ -182,6 +198,16 @@ func (c *Client) exec(i int, op Op) (goOn bool) {
 		}
 	case "resume":
 		c.Resume()
+	case "awaitkey":
+		c.waiting.Store(1)
+		for c.keyCnt[op.Key] < op.N {
+			select {
+			case <-c.gotCh:
+			case <-c.stop:
+				return false
+			}
+		}
+		c.waiting.Store(0)
 	case "await":
 		c.waiting.Store(int64(op.N))
 		for c.replies < op.N {
